@@ -42,15 +42,15 @@ TRUSTED_BASE = [
 # property table: generator ids, volumes, which outcome families matter
 PROPS = {
     "C01": dict(gens=["C01"], quick=4000, thorough=300000),
-    "C02": dict(gens=["C02"], quick=5000, thorough=200000),
-    "C03": dict(gens=["C03"], quick=11000, thorough=200000),
-    "C04": dict(gens=["C04"], quick=19000, thorough=250000, known=["K1"]),
+    "C02": dict(gens=["C02", "K"], quick=8000, thorough=220000),
+    "C03": dict(gens=["C03", "K"], quick=14000, thorough=220000),
+    "C04": dict(gens=["C04", "K"], quick=22000, thorough=270000, known=["K1"]),
     "C05": dict(gens=["C05"], quick=31000, thorough=300000),
     "C08": dict(gens=["C08", "F08"], quick=22400, thorough=390000),
     "C10": dict(gens=["C10"], quick=5000, thorough=300000),
     "C14": dict(gens=["C14"], quick=3000, thorough=100000),
     "C15": dict(gens=["C15", "F15"], quick=11200, thorough=260000),
-    "C16": dict(gens=["C16"], quick=8000, thorough=200000),
+    "C16": dict(gens=["C16", "K"], quick=11000, thorough=220000),
     "C06": dict(gens=["C06"], quick=15000, thorough=300000, known=["K2", "K4"]),
     "C07": dict(gens=["C07", "F07"], quick=6000, thorough=250000),
     "C09": dict(gens=["C09"], quick=4000, thorough=150000),
@@ -450,10 +450,12 @@ def gen_cases(pid, seed, tier):
     n = cfg[tier]
     rng = random.Random(seed * 1000003 + int(hashlib.sha1(pid.encode()).hexdigest()[:6], 16))
     lines = []
-    per = max(1, n // len(cfg["gens"]))
+    aux = [g for g in cfg["gens"] if g == "K"]
+    main = [g for g in cfg["gens"] if g != "K"]
+    per = max(1, (n - 3000 * len(aux)) // len(main))
     for g in cfg["gens"]:
-        lines += gen.GENS[g](rng, per)
-    return lines
+        lines += gen.GENS[g](rng, 3000 if g == "K" else per)
+    return gen.vary_modes(lines, rng)
 
 
 def write_replay(pid, kind, info):
